@@ -381,9 +381,9 @@ _sys.path.insert(0, os.path.dirname(os.path.abspath(__file__)))
 import gen_c11 as _gen_c11
 
 _AST_MOD = "Proofs.AstCodecEquiv"
-C11.obligations = list(C11.obligations) + [_AST_MOD + "::" + n for n in (
-    "ast_is_char_equiv", "ast_utf16_unit_offset_equiv", "ast_client_num_units_equiv",
-    "ast_position_from_equiv", "ast_position_to_equiv", "ast_codec_equiv_enum", "ast_from_example")]
+# ast_codec_equiv = ast_is_char_equiv /\ ast_utf16_unit_offset_equiv /\ ast_client_num_units_equiv /\
+# ast_position_from_equiv /\ ast_position_to_equiv (one Print Assumptions instead of five)
+C11.obligations = list(C11.obligations) + [_AST_MOD + "::" + n for n in ("ast_codec_equiv", "ast_from_example")]
 C11.coq_targets = list(C11.coq_targets) + ["Proofs/AstCodecEquiv.vo"]
 C11.trusted_base = list(C11.trusted_base) + [
     "translator tie: harness/gen_ast.py (Python ast -> PyMini, fail-closed) and the PyMini semantics "
